@@ -65,6 +65,14 @@ func (ev *refEval) prepared(n *Node) []*TPart {
 		if it.lit != nil {
 			continue
 		}
+		if multiline {
+			for _, j := range []int{i - 1, i + 1} {
+				if (j == i-1 && it.l || j == i+1 && it.r) && j >= 0 && j < len(items) && items[j].lit != nil &&
+					strings.ContainsAny(items[j].lit.S, "$%") {
+					ood("strip marker next to a heredoc/bare-template literal containing $ or % (scanner token boundaries)")
+				}
+			}
+		}
 		if it.l && i > 0 && items[i-1].lit != nil {
 			p := items[i-1].lit
 			if ev.lineStrip && multiline {
